@@ -244,3 +244,179 @@ Qed.
 End BWRun.
 
 Definition b2n (b : bool) : N := if b then 1 else 0.
+
+(* ---------------- inode views: fragment reference and block-size list ---------------- *)
+Lemma upd_nth_comm : forall i j v w l, i <> j -> upd_nth i v (upd_nth j w l) = upd_nth j w (upd_nth i v l).
+Proof.
+  induction i as [|i IH]; intros [|j] v w l H; try congruence.
+  - destruct l; reflexivity.
+  - destruct l; reflexivity.
+  - destruct l as [|x l]; cbn [upd_nth]; f_equal; apply IH; congruence.
+Qed.
+
+Lemma upd_nth_same0 : forall i l, upd_nth i 0 (upd_nth i 0 l) = upd_nth i 0 l.
+Proof. induction i as [|i IH]; intros [|x l]; cbn [upd_nth]; try reflexivity; f_equal; apply IH. Qed.
+
+(* an inode operation that touches neither the fragment reference nor extra[] *)
+Definition keeps_views (f : inode -> inode) : Prop :=
+  forall i, i_fidx (f i) = i_fidx i /\ i_foff (f i) = i_foff i /\ i_blocks (f i) = i_blocks i.
+
+Lemma kv_make_extended : keeps_views i_make_extended.
+Proof. intro i. unfold i_make_extended. destruct (i_ext i); cbn; auto. Qed.
+
+Lemma kv_make_basic : keeps_views i_make_basic.
+Proof.
+  intro i. unfold i_make_basic. destruct (negb (i_ext i)); [auto|].
+  destruct (U32MAX <? i_start i); [auto|]. destruct (U32MAX <? i_size i); [auto|].
+  destruct (0 <? i_sparse i); cbn; auto.
+Qed.
+
+Lemma kv_set_file_size n : keeps_views (fun i => i_set_file_size i (i_size i + n)).
+Proof.
+  intro i. unfold i_set_file_size. destruct (i_ext i).
+  - destruct (i_size i + n <? U32MAX); [|cbn; auto].
+    match goal with |- context [i_make_basic ?x] => destruct (kv_make_basic x) as (A & B & C) end.
+    rewrite A, B, C. cbn; auto.
+  - destruct (U32MAX <? i_size i + n); [|cbn; auto].
+    destruct (kv_make_extended i) as (A & B & C). cbn [i_fidx i_foff i_blocks]. auto.
+Qed.
+
+Lemma kv_set_block_start loc : keeps_views (fun i => i_set_block_start i loc).
+Proof.
+  intro i. unfold i_set_block_start. destruct (i_ext i).
+  - destruct (loc <? U32MAX); [|cbn; auto].
+    match goal with |- context [i_make_basic ?x] => destruct (kv_make_basic x) as (A & B & C) end.
+    rewrite A, B, C. cbn; auto.
+  - destruct (U32MAX <? loc); [|cbn; auto].
+    destruct (kv_make_extended i) as (A & B & C). cbn [i_fidx i_foff i_blocks]. auto.
+Qed.
+
+Lemma it_upd_same (t : itab) k f : it_upd t k f k = f (t k).
+Proof. unfold it_upd. rewrite N.eqb_refl. reflexivity. Qed.
+
+Lemma it_upd_other (t : itab) k f k' : k' <> k -> it_upd t k f k' = t k'.
+Proof. intro H. unfold it_upd. apply N.eqb_neq in H. rewrite H. reflexivity. Qed.
+
+Lemma fref_of_snoc glog e k :
+  fref_of (glog ++ [e]) k = if k =? fst (fst e) then (snd (fst e), snd e) else fref_of glog k.
+Proof. unfold fref_of. rewrite fold_left_app. reflexivity. Qed.
+
+Lemma blocks_canon_flush sflog ws b k :
+  blocks_canon sflog (ws ++ [b]) k = flush_blk k (blocks_canon sflog ws k) b.
+Proof. unfold blocks_canon. rewrite fold_left_app. reflexivity. Qed.
+
+(* process_completed_block changes extra[] of the block's inode *)
+Definition acts (b : blk) : Prop :=
+  bhas SPARSE b = true \/ (len (b_data b) <> 0 /\ bhas FRAGBLK b = false).
+
+Lemma flush_blk_idle k l b : ~ acts b -> flush_blk k l b = l.
+Proof.
+  intro H. unfold flush_blk, acts in *. destruct (k =? b_ino b); [|reflexivity].
+  destruct (bhas SPARSE b); [exfalso; apply H; left; reflexivity|].
+  destruct (len (b_data b) =? 0) eqn:E; cbn [negb]; [reflexivity|].
+  destruct (bhas FRAGBLK b); [reflexivity|]. exfalso. apply H. right. apply N.eqb_neq in E. auto.
+Qed.
+
+(* a sparse tail end (cell i of inode k0) may be moved in front of a written block that does not set
+   the same cell of the same inode *)
+Lemma flush_blk_sf_comm k k0 i b l :
+  (b_ino b = k0 -> acts b -> N.to_nat (b_idx b) <> N.to_nat i) ->
+  flush_blk k (sf_blk k l (k0, i)) b = sf_blk k (flush_blk k l b) (k0, i).
+Proof.
+  intros H. unfold sf_blk. cbn [fst snd]. destruct (k =? k0) eqn:E; [|reflexivity].
+  apply N.eqb_eq in E. subst k0.
+  unfold flush_blk, acts in *. destruct (k =? b_ino b) eqn:Ek; [|reflexivity]. apply N.eqb_eq in Ek. symmetry in Ek.
+  destruct (bhas SPARSE b).
+  - apply upd_nth_comm. apply H; auto.
+  - destruct (len (b_data b) =? 0) eqn:El; cbn [negb]; [reflexivity|].
+    destruct (bhas FRAGBLK b); [reflexivity|].
+    apply upd_nth_comm. apply H; [exact Ek|]. right. apply N.eqb_neq in El. auto.
+Qed.
+
+Lemma fold_flush_sf_comm k k0 i : forall ws l,
+  Forall (fun b => b_ino b = k0 -> acts b -> N.to_nat (b_idx b) <> N.to_nat i) ws ->
+  fold_left (flush_blk k) ws (sf_blk k l (k0, i)) = sf_blk k (fold_left (flush_blk k) ws l) (k0, i).
+Proof.
+  induction ws as [|b ws IH]; intros l H; [reflexivity|].
+  inversion H; subst. cbn [fold_left]. rewrite flush_blk_sf_comm by assumption. apply IH. assumption.
+Qed.
+
+Lemma blocks_canon_sf sflog ws k k0 i :
+  Forall (fun b => b_ino b = k0 -> acts b -> N.to_nat (b_idx b) <> N.to_nat i) ws ->
+  blocks_canon (sflog ++ [(k0, i)]) ws k = sf_blk k (blocks_canon sflog ws k) (k0, i).
+Proof.
+  intro H. unfold blocks_canon. rewrite fold_left_app. cbn [fold_left]. apply fold_flush_sf_comm. exact H.
+Qed.
+
+(* ---------------- the fragment table ---------------- *)
+Lemma ftbl_set_snoc t x : forall n v, n <> length t -> ftbl_set (t ++ [x]) n v = ftbl_set t n v ++ [x].
+Proof.
+  induction t as [|y t IH]; intros n v H; cbn [app ftbl_set length] in *.
+  - destruct n; [congruence|reflexivity].
+  - destruct n; [reflexivity|]. cbn [app]. f_equal. apply IH. congruence.
+Qed.
+
+Lemma ftbl_set_length t : forall n v, length (ftbl_set t n v) = length t.
+Proof. induction t as [|y t IH]; intros [|n] v; cbn [ftbl_set length]; try reflexivity. rewrite IH. reflexivity. Qed.
+
+Lemma ftbl_apply_length t w : length (ftbl_apply t w) = length t.
+Proof.
+  unfold ftbl_apply. destruct (bhas SPARSE (fst w)); [reflexivity|].
+  destruct (negb _); [|reflexivity]. destruct (bhas FRAGBLK (fst w)); [apply ftbl_set_length|reflexivity].
+Qed.
+
+(* a fragment-block write with an index other than the current table size commutes with growing the table *)
+Definition ft_ok (n : nat) (w : blk * N) : Prop :=
+  bhas FRAGBLK (fst w) = true -> (N.to_nat (b_idx (fst w)) < n)%nat.
+
+Lemma ftbl_fold_snoc : forall ws t x,
+  Forall (ft_ok (length t)) ws ->
+  fold_left ftbl_apply ws (t ++ [x]) = fold_left ftbl_apply ws t ++ [x].
+Proof.
+  induction ws as [|w ws IH]; intros t x H; [reflexivity|].
+  inversion H as [|? ? Hw Hws]; subst. cbn [fold_left].
+  assert (E : ftbl_apply (t ++ [x]) w = ftbl_apply t w ++ [x]).
+  { unfold ftbl_apply. destruct (bhas SPARSE (fst w)); [reflexivity|].
+    destruct (negb _); [|reflexivity]. destruct (bhas FRAGBLK (fst w)) eqn:EF; [|reflexivity].
+    apply ftbl_set_snoc. specialize (Hw EF). lia. }
+  rewrite E. apply IH. rewrite ftbl_apply_length. exact Hws.
+Qed.
+
+Lemma ftbl_canon_grow n ws :
+  Forall (ft_ok (N.to_nat n)) ws -> ftbl_canon (n + 1) ws = ftbl_canon n ws ++ [(0, 0)].
+Proof.
+  intro H. unfold ftbl_canon. replace (N.to_nat (n + 1)) with (N.to_nat n + 1)%nat by lia.
+  rewrite repeat_app. cbn [repeat]. apply ftbl_fold_snoc. rewrite repeat_length. exact H.
+Qed.
+
+Lemma ftbl_canon_snoc n ws w : ftbl_canon n (ws ++ [w]) = ftbl_apply (ftbl_canon n ws) w.
+Proof. unfold ftbl_canon. rewrite fold_left_app. reflexivity. Qed.
+
+(* process_block keeps inode, index, and the FRAGMENT_BLOCK / sparse relation *)
+Section PB2.
+Variable hash : list N -> N.
+Variable compress : list N -> option (list N).
+Notation pblock := (process_block hash compress).
+
+Lemma pb_idx b : b_idx (pblock b) = b_idx b.
+Proof.
+  unfold process_block. destruct (b_data b); [reflexivity|].
+  destruct (_ && _); [reflexivity|]. destruct (_ || _); [reflexivity|]. destruct (compress _); reflexivity.
+Qed.
+
+Lemma pb_sparse_fb b : bhas FRAGBLK b = true -> bhas SPARSE (pblock b) = bhas SPARSE b.
+Proof.
+  intro H. unfold process_block, bhas in *. destruct (b_data b); [reflexivity|].
+  rewrite H, orb_true_r. cbn [negb andb].
+  destruct (_ || _); [reflexivity|]. destruct (compress _); [|reflexivity].
+  cbn [b_fl with_fl]. apply getf_setf_other. discriminate.
+Qed.
+
+(* a processed block acts on its inode only if the submitted block was not empty *)
+Lemma pb_acts_nonempty b : bhas SPARSE b = false -> acts (pblock b) -> b_data b <> [].
+Proof.
+  intros H0 [H|[H _]].
+  - intro E. unfold process_block in H. rewrite E in H. congruence.
+  - intro E. unfold process_block in H. rewrite E in H. rewrite E in H. apply H. reflexivity.
+Qed.
+End PB2.
